@@ -15,8 +15,8 @@ REG = globals().get("REG")
 
 # an entity handle denotes an existing group; HDF5 objects are never their own children; allocated objects are
 # older than the allocation counter (store well-formedness, instance-wise)
-REG.invariants["Entity"] = ["obj(self) != 0", "field(field(self, '_h5group'), 'pgid') != obj(self)",
-                            "freshid() > 0 and obj(self) < freshid()"]
+REG.invariants["Entity"] = ["hobj(self) != 0", "field(field(self, '_h5group'), 'pgid') != hobj(self)",
+                            "freshid() > 0 and hobj(self) < freshid()"]
 REG.inline("nixio.entity.Entity.file", "nixio.file.File.auto_update_timestamps", "nixio.util.util.check_attr_type",
            "nixio.util.util.check_entity_type", "nixio.util.util.check_entity_name_and_type")
 
